@@ -119,7 +119,11 @@ def run_jobs(prop, jobs, nworkers, job_timeout):
                     counter[0] += 1
                     n = counter[0]
                 w = workers[d] = Worker(prop, d, n)
+            t_job = time.time()
             results[i] = w.run(job, job.get("timeout", job_timeout))
+            if os.environ.get("MDPV_PROGRESS"):
+                print(f"[{time.strftime('%H:%M:%S')}] {prop} job {job.get('name')} {time.time() - t_job:.0f}s "
+                      f"{'FATAL' if 'fatal' in results[i] else 'ok'} ({todo.qsize()} queued)", file=sys.stderr, flush=True)
             if "fatal" in results[i]:
                 if w.alive:
                     w.kill()
